@@ -24,6 +24,7 @@ type entry struct {
 	kind   byte // r regular, d directory, s symlink, h hard link
 	name   string
 	target string
+	mode   int64 // directories: the mode of the header when it is not the usual 0755
 }
 
 func (e entry) String() string {
@@ -35,6 +36,9 @@ func (e entry) String() string {
 	case 'r':
 		return "reg " + n
 	case 'd':
+		if e.mode != 0 {
+			return fmt.Sprintf("dir %s (mode %04o)", n, e.mode)
+		}
 		return "dir " + n
 	case 's':
 		return "sym " + n + "->" + e.target
@@ -99,6 +103,8 @@ func families(tier string) []family {
 		{kind: 's', name: "a", target: "x/x/../../zz"}, {kind: 's', name: "a", target: "x/x/../../cwd/victim"},
 		// a hard link whose source path runs through such a link to an existing outside file, then a regular entry of that name
 		{kind: 'h', name: "h", target: "a/cwd/victim"}, {kind: 'r', name: "h"},
+		// a read-only directory (an extractor may give it its mode only at the end, by name)
+		{kind: 'd', name: "a", mode: 0o555},
 	}
 	// link targets that stay inside when read relative to the link's own directory (as they are
 	// validated) but name an existing file outside the working directory when read relative to the
@@ -275,6 +281,9 @@ func (t *tarRun) blob(seq []int) (ocispec.Descriptor, []byte) {
 			h.Typeflag, h.Mode, h.Size = tar.TypeReg, 0o644, int64(len(pwn))
 		case 'd':
 			h.Typeflag, h.Mode = tar.TypeDir, 0o755
+			if e.mode != 0 {
+				h.Mode = e.mode
+			}
 		case 's':
 			h.Typeflag, h.Mode, h.Linkname = tar.TypeSymlink, 0o777, t.linkTarget(e.target)
 		case 'h':
@@ -431,6 +440,53 @@ func (t *tarRun) followUp(links []string, describe func() string) {
 	}
 }
 
+// sameStore: one store for a whole history. A named push whose bytes fail verification (the name stays
+// free; directories made for it may stay behind), then the archive that leaves a link resolving outside,
+// then the first push again with the right bytes: nothing outside the working directory may change.
+func (t *tarRun) sameStore(seq []int, links []string) {
+	c, sb := t.c, t.sb
+	ctx := context.Background()
+	for _, l := range links {
+		for _, title := range []string{l + "/zz", l + "/d/zz"} {
+			sb.resetWD(t.state)
+			st, err := file.New(sb.wd)
+			must(err)
+			good := []byte(pwn)
+			desc := ocispec.Descriptor{MediaType: "application/octet-stream", Digest: digest.FromBytes(good), Size: int64(len(good)), Annotations: map[string]string{ocispec.AnnotationTitle: title}}
+			var err1, err2, err3 error
+			func() {
+				defer func() {
+					if r := recover(); r != nil {
+						err3 = fmt.Errorf("panic: %v", r)
+					}
+				}()
+				err1 = st.Push(ctx, desc, bytes.NewReader(bytes.Repeat([]byte("X"), len(good))))
+				adesc, ablob := t.blob(seq)
+				err2 = st.Push(ctx, adesc, bytes.NewReader(ablob))
+				err3 = st.Push(ctx, desc, bytes.NewReader(good))
+			}()
+			st.Close()
+			c.Evals++
+			c.Count("same_store_histories", 1)
+			if err2 == nil {
+				c.Count("same_store_histories_archive_accepted", 1)
+			}
+			pic := sb.picture()
+			if pic == sb.canon {
+				continue
+			}
+			var lines []string
+			for _, ch := range pictureChanges(sb.canon, pic) {
+				lines = append(lines, fmt.Sprintf("%s in %s: %s: %s => %s", ch.what, where(ch.path), ch.path, ch.old, ch.new))
+			}
+			t.violation("one store: a push repeated after an archive was unpacked writes outside the working directory through a link the archive left behind",
+				fmt.Sprintf("one file store on the working directory (pre-populated: %s), default options\n1. Push of a blob named %q with bytes that do not match its digest: %v\n2. Push of the archive (title %q; entries: %s): %v\n3. Push of the blob named %q with the right bytes: %v\nchanged outside the working directory:\n%s",
+					t.state, title, err1, t.fam.title, t.seqString(seq), err2, title, err3, strings.Join(lines, "\n")))
+			sb.repair()
+		}
+	}
+}
+
 func (t *tarRun) runSeq(seq []int, parent info, parentOK, judge, wantInfo bool) (error, info) {
 	c, sb := t.c, t.sb
 	sb.resetWD(t.state)
@@ -536,6 +592,7 @@ func (t *tarRun) runSeq(seq []int, parent info, parentOK, judge, wantInfo bool) 
 		if links := sb.linksLeavingWD(); len(links) > 0 {
 			c.Count("accepted_archives_leaving_a_symlink_that_resolves_outside", 1)
 			t.followUp(links, describe)
+			t.sameStore(seq, links)
 		}
 	}
 	if last.name == "<out>" && parentOK && err == nil {
